@@ -27,6 +27,25 @@ def cases(rng, tier):
         yield {"op": "C08.stmt", "tag": kind[0] + ("-loop" if kind[0] == "assign" and kind[4] else "")
                + ("-sub" if kind[0] == "assign" and kind[2] is not None else ""),
                "spec": {"cond": cond, "kind": kind}, "store": sc.g_store(rng)}
+    yield from outer_counter_cases(rng, 60 if tier == "quick" else 600)
+
+
+def outer_counter_cases(rng, n):
+    """a loop bound (or the right-hand side) mentions a variable that is spelled like one of the statement's OWN loop
+    counters: the value is read from the state before the loop sets the counter. Decided on the real code only
+    (the interpreter deletes the counter afterwards; the model's stores do not hold counter names)."""
+    for _ in range(n):
+        shape = rng.randrange(3)
+        if shape == 0:
+            loops = [["i", ["c", 0], ["v", "i"]]]
+        elif shape == 1:
+            loops = [["i", ["c", 0], ["c", rng.randint(1, 3)]], ["k", ["c", 0], ["+", [["v", "k"], ["c", 1]]]]]
+        else:
+            loops = [["i", ["v", "i"], ["c", sc.ARR_LEN]]]
+        lhs = rng.choice(["t1", "a"])
+        kind = ["assign", lhs, None, ["+", [["v", lhs], ["c", 1]]], loops]
+        store = sc.g_store(rng) + [["i", rng.randint(0, 3)], ["k", rng.randint(0, 2)]]
+        yield {"op": None, "tag": "bound-named-like-own-counter", "spec": {"cond": ["cb", True], "kind": kind}, "store": store}
 
 
 def model_input(case):
@@ -49,7 +68,8 @@ def impl(case):
         return {"dropped": "inexact"}
     except (TypeError, IndexError, ZeroDivisionError, ValueError) as e:
         return {"dropped": "python-error:" + type(e).__name__}
-    reads = sorted({x for x in rec.reads if x not in counters})
+    # a counter name whose first access is a look-up was read from OUTSIDE the statement: that is a variable read
+    reads = sorted({x for x in rec.reads if x not in counters} | {x for x in rec.first_reads if x in counters})
     writes = sorted({x for x in rec.writes if x not in counters})
     return {"declReads": decl_r, "declWrites": decl_w, "reads": reads, "writes": writes, "store": store,
             "status": status, "log": [ev] if ev is not None else [], "identity_ok": ident_ok}
